@@ -1,7 +1,7 @@
 (* C08 - the history theorems: sequential machine and concurrent machine, both by
    preservation of [GInv] and induction over the history / schedule. *)
 From Common Require Import Prelude.
-From C08 Require Import Model Proofs.
+From C08 Require Import Model Proofs ProofsLift.
 Local Open Scope Z_scope.
 
 Definition fr0 := mkFrame 0 ANone no_loc None.
@@ -18,6 +18,16 @@ Proof.
   - apply Forall_app; split; auto. constructor; auto. intros N. simpl in N. congruence.
 Qed.
 
+Lemma oid_eqb_eq a b : oid_eqb a b = true <-> a = b.
+Proof.
+  destruct a as [x|], b as [y|]; simpl; split; intro H; try discriminate; auto.
+  - apply Nat.eqb_eq in H. now subst.
+  - inversion H. apply Nat.eqb_refl.
+Qed.
+
+Lemma nh_pos_of_handle hs h o : slot_tgt (hget hs h) = Some o -> 1 <= nh hs o.
+Proof. intro E. pose proof (nh_ge_ind hs h o) as G. rewrite E in G. simpl in G. rewrite Nat.eqb_refl in G. lia. Qed.
+
 (* ------------------------------------------------------------------ sequential *)
 Definition Inv (s : sstate) : Prop := GInv (s_heap s) [] [mkT (s_hs s) [] fr0].
 
@@ -29,18 +39,6 @@ Proof.
   - intro o. unfold getobj; simpl. destruct o; reflexivity.
   - constructor; auto. simpl. split; auto. intro o. unfold holdv. simpl. rewrite nh_repeat_dead. lia.
   - constructor; auto. intro N. simpl in N. congruence.
-Qed.
-
-Lemma call_inv m h a cj s :
-  Inv s -> frame_ok [] m (mkFrame h a no_loc cj) (s_hs s) ->
-  (forall o, cj = Some o -> 1 <= creator (getobj (s_heap s) o)) ->
-  Inv (call model_table m h a cj s).
-Proof.
-  unfold Inv, call. intros I F C.
-  pose proof (start_step _ _ [] [] _ _ _ _ I F C) as I1.
-  apply run_prog_inv in I1.
-  destruct (run_prog [] (prog_of model_table m) (mkFrame h a no_loc cj, s_hs s, s_heap s)) as [[fr' hs'] hp'].
-  simpl in *. apply (GInv_idle_frame _ _ [] []) with (fr := fr'). exact I1.
 Qed.
 
 Lemma Inv_nh s o : Inv s -> cntq (s_heap s) o = nh (s_hs s) o.
@@ -63,9 +61,53 @@ Proof.
   destruct (Z.leb_spec 1 (creator (getobj hp x))); [|discriminate]. intro E; inversion E; subst; auto.
 Qed.
 
-Lemma step_inv s o : Inv s -> Inv (fst (step s o)).
+(* what the invariant says, in the terms of the property *)
+Lemma inv_count s o : Inv s ->
+  use_count s o = creator (getobj (s_heap s) o) + nh (s_hs s) o.
+Proof. intro I. pose proof (Inv_nh s o I) as E. unfold cntq, use_count in *. lia. Qed.
+
+Lemma inv_alive_iff s o : Inv s ->
+  (is_alive s o = true <-> 1 <= creator (getobj (s_heap s) o) + nh (s_hs s) o).
 Proof.
-  intro I. unfold step. destruct (legal s o) eqn:L; simpl; auto.
+  intro I. unfold is_alive. rewrite (gi_alive _ _ _ I o). rewrite <- inv_count by auto.
+  unfold use_count. split; intro H; [apply Z.leb_le in H|apply Z.leb_le]; lia.
+Qed.
+
+Lemma inv_dead s o : Inv s -> is_alive s o = false ->
+  use_count s o = 0 /\ creator (getobj (s_heap s) o) = 0 /\ nh (s_hs s) o = 0.
+Proof.
+  intros I D. pose proof (inv_count s o I) as E. unfold is_alive in D.
+  rewrite (gi_alive _ _ _ I o) in D. apply Z.leb_gt in D.
+  pose proof (gi_cre _ _ _ I o). pose proof (nh_nonneg (s_hs s) o). unfold use_count in *. lia.
+Qed.
+
+Lemma len_rmw_inc e o hp : length (objs (rmw_inc e o hp)) = length (objs hp).
+Proof. unfold rmw_inc. destruct (alive (getobj hp o)); simpl; auto. apply length_upd. Qed.
+Lemma len_rmw_dec e o hp : length (objs (rmw_dec e o hp)) = length (objs hp).
+Proof.
+  unfold rmw_dec. destruct (alive (getobj hp o)); simpl; auto.
+  destruct (cnt (getobj hp o) - 1 =? 0); simpl; apply length_upd.
+Qed.
+
+Section Table.
+Variable tbl : meth -> list mop.
+Hypothesis Hc : contracts_ok tbl = true.
+
+Lemma call_inv m h a cj s :
+  Inv s -> frame_ok [] m (mkFrame h a no_loc cj) (s_hs s) ->
+  (forall o, cj = Some o -> 1 <= creator (getobj (s_heap s) o)) ->
+  Inv (call tbl m h a cj s).
+Proof.
+  unfold Inv, call. intros I F C.
+  pose proof (start_step_t tbl _ _ [] [] _ _ _ _ Hc I F (fun _ => eq_refl) C) as I1.
+  apply run_prog_inv in I1.
+  destruct (run_prog [] (prog_of tbl m) (mkFrame h a no_loc cj, s_hs s, s_heap s)) as [[fr' hs'] hp'].
+  simpl in *. apply (GInv_idle_frame _ _ [] []) with (fr := fr'). exact I1.
+Qed.
+
+Lemma step_inv s o : Inv s -> Inv (fst (step_t tbl s o)).
+Proof.
+  intro I. unfold step_t. destruct (legal s o) eqn:L; simpl; auto.
   destruct o; simpl in L; simpl;
     repeat match goal with H : _ && _ = true |- _ => apply andb_true_iff in H as [? ?] end.
   - apply create_step. exact I.
@@ -87,77 +129,39 @@ Proof.
     apply Z.leb_le; auto.
 Qed.
 
-Lemma run_from_inv l : forall s, Inv s -> Inv (run_from s l).
+Lemma run_from_inv l : forall s, Inv s -> Inv (run_from_t tbl s l).
 Proof. induction l as [|o l IH]; intros s I; simpl; auto. apply IH. now apply step_inv. Qed.
 
-Lemma run_inv n l : Inv (run n l).
+Lemma run_inv n l : Inv (run_t tbl n l).
 Proof. apply run_from_inv. apply init_inv. Qed.
 
-(* what the invariant says, in the terms of the property *)
-Lemma inv_count s o : Inv s ->
-  use_count s o = creator (getobj (s_heap s) o) + nh (s_hs s) o.
-Proof. intro I. pose proof (Inv_nh s o I) as E. unfold cntq, use_count in *. lia. Qed.
-
-Lemma inv_alive_iff s o : Inv s ->
-  (is_alive s o = true <-> 1 <= creator (getobj (s_heap s) o) + nh (s_hs s) o).
-Proof.
-  intro I. unfold is_alive. rewrite (gi_alive _ _ _ I o). rewrite <- inv_count by auto.
-  unfold use_count. split; intro H; [apply Z.leb_le in H|apply Z.leb_le]; lia.
-Qed.
-
-Lemma inv_dead s o : Inv s -> is_alive s o = false ->
-  use_count s o = 0 /\ creator (getobj (s_heap s) o) = 0 /\ nh (s_hs s) o = 0.
-Proof.
-  intros I D. pose proof (inv_count s o I) as E. unfold is_alive in D.
-  rewrite (gi_alive _ _ _ I o) in D. apply Z.leb_gt in D.
-  pose proof (gi_cre _ _ _ I o). pose proof (nh_nonneg (s_hs s) o). unfold use_count in *. lia.
-Qed.
-
-Lemma oid_eqb_eq a b : oid_eqb a b = true <-> a = b.
-Proof.
-  destruct a as [x|], b as [y|]; simpl; split; intro H; try discriminate; auto.
-  - apply Nat.eqb_eq in H. now subst.
-  - inversion H. apply Nat.eqb_refl.
-Qed.
-
-Lemma nh_pos_of_handle hs h o : slot_tgt (hget hs h) = Some o -> 1 <= nh hs o.
-Proof. intro E. pose proof (nh_ge_ind hs h o) as G. rewrite E in G. simpl in G. rewrite Nat.eqb_refl in G. lia. Qed.
-
 (* statements used by Properties.v *)
-Lemma seq_count_eq n l o : let s := run n l in
+Lemma seq_count_eq n l o : let s := run_t tbl n l in
   is_alive s o = true -> use_count s o = creator (getobj (s_heap s) o) + nh (s_hs s) o.
 Proof. intros s _. apply inv_count. apply run_inv. Qed.
 
-Lemma seq_no_error n l : err (s_heap (run n l)) = false.
+Lemma seq_no_error n l : err (s_heap (run_t tbl n l)) = false.
 Proof. apply (gi_err _ _ _ (run_inv n l)). Qed.
 
-Lemma seq_alive_iff_referenced n l o : let s := run n l in
+Lemma seq_alive_iff_referenced n l o : let s := run_t tbl n l in
   is_alive s o = true <-> 1 <= creator (getobj (s_heap s) o) + nh (s_hs s) o.
 Proof. apply inv_alive_iff. apply run_inv. Qed.
 
-Lemma seq_no_dangling n l h o : let s := run n l in
+Lemma seq_no_dangling n l h o : let s := run_t tbl n l in
   handle_ptr s h = Some o -> is_alive s o = true.
 Proof.
   intros s E. apply (inv_alive_iff s o (run_inv n l)).
   pose proof (nh_pos_of_handle _ _ _ E). pose proof (gi_cre _ _ _ (run_inv n l) o). fold s in H0. lia.
 Qed.
 
-Lemma seq_destroyed_exactly_once n l o : let s := run n l in
+Lemma seq_destroyed_exactly_once n l o : let s := run_t tbl n l in
   dels (log (s_heap s)) o =
   if Nat.ltb o (length (objs (s_heap s))) && negb (is_alive s o) then 1 else 0.
 Proof. apply (gi_dels _ _ _ (run_inv n l)). Qed.
 
-Lemma len_rmw_inc e o hp : length (objs (rmw_inc e o hp)) = length (objs hp).
-Proof. unfold rmw_inc. destruct (alive (getobj hp o)); simpl; auto. apply length_upd. Qed.
-Lemma len_rmw_dec e o hp : length (objs (rmw_dec e o hp)) = length (objs hp).
-Proof.
-  unfold rmw_dec. destruct (alive (getobj hp o)); simpl; auto.
-  destruct (cnt (getobj hp o) - 1 =? 0); simpl; apply length_upd.
-Qed.
-
 (* the step in which o dies is the step after which nothing references it, and it is logged once there *)
 Lemma seq_destroyed_at_last_release n l op o :
-  let s := run n l in let s' := fst (step s op) in
+  let s := run_t tbl n l in let s' := fst (step_t tbl s op) in
   is_alive s o = true ->
   (is_alive s' o = false <-> creator (getobj (s_heap s') o) + nh (s_hs s') o = 0) /\
   dels (log (s_heap s')) o = dels (log (s_heap s)) o + (if is_alive s' o then 0 else 1).
@@ -174,7 +178,7 @@ Proof.
     assert (R : (o < length (objs (s_heap s')))%nat).
     { pose proof (alive_in_range _ _ A) as R0.
       assert (Hlen : (length (objs (s_heap s)) <= length (objs (s_heap s')))%nat).
-      { clear -s'. subst s'. unfold step. destruct (legal s op); simpl; auto.
+      { clear -s'. subst s'. unfold step_t. destruct (legal s op); simpl; auto.
         assert (Hrun : forall p c, (length (objs (snd c)) <= length (objs (snd (run_prog [] p c))))%nat).
         { induction p as [|m p IH]; intro c; simpl; auto. etransitivity; [|apply IH].
           destruct c as [[fr hs] hp]. unfold mexec. destruct (pexec [] m fr hs) as [fr' hs']. simpl.
@@ -182,15 +186,15 @@ Proof.
           - destruct (eval [] fr hs q); [rewrite len_rmw_inc; auto|destruct g; simpl; auto].
           - destruct (eval [] fr hs q); [rewrite len_rmw_dec; auto|destruct g; simpl; auto].
           - destruct d; simpl; auto. destruct (f_arg fr); simpl; auto. }
-        assert (Hcall : forall m h a cj, (length (objs (s_heap s)) <= length (objs (s_heap (call model_table m h a cj s))))%nat).
-        { intros. unfold call. specialize (Hrun (prog_of model_table m) (mkFrame h a no_loc cj, s_hs s, s_heap s)).
-          destruct (run_prog [] (prog_of model_table m) (mkFrame h a no_loc cj, s_hs s, s_heap s)) as [[? ?] ?]. simpl in *. exact Hrun. }
+        assert (Hcall : forall m h a cj, (length (objs (s_heap s)) <= length (objs (s_heap (call tbl m h a cj s))))%nat).
+        { intros. unfold call. specialize (Hrun (prog_of tbl m) (mkFrame h a no_loc cj, s_hs s, s_heap s)).
+          destruct (run_prog [] (prog_of tbl m) (mkFrame h a no_loc cj, s_hs s, s_heap s)) as [[? ?] ?]. simpl in *. exact Hrun. }
         destruct op; unfold exec_op; try apply Hcall; simpl; rewrite ?len_rmw_inc, ?len_rmw_dec, ?app_length; simpl; lia. }
       lia. }
     apply Nat.ltb_lt in R. rewrite R. reflexivity.
 Qed.
 
-Lemma seq_handle_eq_iff n l a b : let s := run n l in
+Lemma seq_handle_eq_iff n l a b : let s := run_t tbl n l in
   (handle_eq s a b = true <-> handle_ptr s a = handle_ptr s b) /\
   handle_ne s a b = negb (handle_eq s a b) /\
   (forall o, handle_ptr s a = Some o -> handle_eq s a b = true ->
@@ -200,3 +204,5 @@ Proof.
   intros o Ea Eq. apply oid_eqb_eq in Eq. split; [congruence|].
   eapply seq_no_dangling; eauto.
 Qed.
+
+End Table.
